@@ -20,6 +20,10 @@ def run(init_cls, init_sty, hist, H, marked=0):
     if init_sty["p"]:
         kw["style"] = H.HTML(uncps(init_sty["t"])) if marked & 2 else uncps(init_sty["t"])
     t = H.Tag("div", kw)
+    # a second tag given the very same value objects (one HTML() constant used for several elements): nothing is ever
+    # done to it, so nothing about it may change
+    twin = H.Tag("span", dict(kw))
+    twin0 = (val(twin, "class"), val(twin, "style"))
     init = {"cls": val(t, "class"), "sty": val(t, "style")}
     out = []
     for step, h in enumerate(hist):
@@ -46,6 +50,7 @@ def run(init_cls, init_sty, hist, H, marked=0):
             rec["exc"] = type(ex).__name__
         rec["cls"] = val(t, "class")
         rec["sty"] = val(t, "style")
+        rec["twinSame"] = (val(twin, "class"), val(twin, "style")) == twin0
         out.append(rec)
     return init, out
 
@@ -104,10 +109,16 @@ class C16(Prop):
                          #  the plain part escaped - C03 - and a line break between tokens would no longer be whitespace)
                          "marked": rnd.choice([0, 0, 1, 2, 3, 5, 7])})
         keys = ["a", "a_b", "aB", "AB", "a_B", "aBC", "ABc", "font_size", "backgroundColor", "x", "WebkitBoxFlex", "a__b", "_a", "a_"]
-        vals = [None, "v", 1, 2.5, "12px", "a b", 0]
+        # (equal numbers of different types next to each other: 1 / 1.0 / True, 0 / 0.0 / -0.0 / False)
+        vals = [None, "v", 1, 2.5, "12px", "a b", 0, 1.0, True, 0.0, -0.0, False, "1", 1, 1.0, True]
         for _ in range(400 if tier == "quick" else 8000):
             ks = rnd.sample(keys, rnd.randint(0, 4))
             gens.append({"kind": "css", "kw": [[k, rnd.choice(vals)] for k in ks]})
+        for k in ("opacity", "z_index", "flexGrow"):
+            for v1 in (1, 1.0, True, 0, 0.0, -0.0, False):
+                for v2 in (1, 1.0, True, 0, 0.0, -0.0, False):
+                    gens.append({"kind": "css", "kw": [[k, v1]]})
+                    gens.append({"kind": "css", "kw": [[k, v2], ["a", "b"]]})
         return gens
 
     def execute(self, g):
